@@ -69,6 +69,8 @@ func (w *World) runPass(pass string, cfg *PropCfg, inSet interface{}) []DFResult
 		return w.passPoolEscape(fns, roots)
 	case "pool-fill":
 		return w.passPoolFill(fns)
+	case "reads-frame":
+		return w.passReadsFrame(cfg)
 	}
 	return []DFResult{{Name: "dataflow#unknown-pass:" + pass, OK: false, Detail: "pass not implemented"}}
 }
@@ -1920,4 +1922,144 @@ func dominators(fn *ssa.Function) []map[int]bool {
 		}
 	}
 	return dom
+}
+
+
+// ---------- reads frames ----------
+// A contract clause `reads p.a.b, p.c` states that the function's result depends on nothing of its parameters but the listed
+// field paths. Decided syntactically on the SSA: every load from memory rooted at a parameter must lie inside a listed path,
+// and no address rooted at a parameter may escape into a call or a store (which could read anything through it).
+func (w *World) passReadsFrame(cfg *PropCfg) []DFResult {
+	fieldName := func(x ssa.Value, idx int) string {
+		t := x.Type()
+		if pt, ok := t.Underlying().(*types.Pointer); ok {
+			t = pt.Elem()
+		}
+		if st, ok := t.Underlying().(*types.Struct); ok && idx < st.NumFields() {
+			return st.Field(idx).Name()
+		}
+		return fmt.Sprint(idx)
+	}
+	var out []DFResult
+	var names []string
+	for nm, ct := range w.contracts {
+		if len(ct.Reads) > 0 && hasProp(ct.Props, cfg.ID) {
+			names = append(names, nm)
+		}
+	}
+	sort.Strings(names)
+	for _, nm := range names {
+		ct := w.contracts[nm]
+		fn := w.fns[nm]
+		if fn == nil {
+			continue
+		}
+		allowed := func(path string) bool {
+			for _, d := range ct.Reads {
+				if path == d || strings.HasPrefix(path, d+".") {
+					return true
+				}
+			}
+			return false
+		}
+		// root path of an address / value: parameter name + field path
+		spill := map[*ssa.Alloc]string{} // local cell holding a parameter
+		for _, b := range fn.Blocks {
+			for _, ins := range b.Instrs {
+				if st, ok := ins.(*ssa.Store); ok {
+					if a, ok := st.Addr.(*ssa.Alloc); ok {
+						if p, ok := st.Val.(*ssa.Parameter); ok {
+							spill[a] = p.Name()
+						}
+					}
+				}
+			}
+		}
+		var path func(v ssa.Value) (string, bool)
+		path = func(v ssa.Value) (string, bool) {
+			switch x := v.(type) {
+			case *ssa.Parameter:
+				return x.Name(), true
+			case *ssa.Alloc:
+				if n, ok := spill[x]; ok {
+					return n, true
+				}
+			case *ssa.FieldAddr:
+				if p, ok := path(x.X); ok {
+					return p + "." + fieldName(x.X, x.Field), true
+				}
+			case *ssa.Field:
+				if p, ok := path(x.X); ok {
+					return p + "." + fieldName(x.X, x.Field), true
+				}
+			case *ssa.UnOp:
+				// a pointer parameter loaded from its cell: still the parameter
+				if x.Op == token.MUL {
+					if a, ok := x.X.(*ssa.Alloc); ok {
+						if n, ok := spill[a]; ok {
+							if _, isPtr := a.Type().(*types.Pointer).Elem().Underlying().(*types.Pointer); isPtr {
+								return n, true
+							}
+						}
+					}
+				}
+			}
+			return "", false
+		}
+		var bad []string
+		for _, b := range fn.Blocks {
+			for _, ins := range b.Instrs {
+				switch x := ins.(type) {
+				case *ssa.UnOp:
+					if x.Op != token.MUL {
+						continue
+					}
+					p, ok := path(x.X)
+					if !ok {
+						continue
+					}
+					if a, isA := x.X.(*ssa.Alloc); isA {
+						if _, isSpill := spill[a]; isSpill {
+							// loading the parameter cell itself: fine for pointers (handled by path), a whole-struct copy otherwise
+							if _, isPtr := a.Type().(*types.Pointer).Elem().Underlying().(*types.Pointer); isPtr {
+								continue
+							}
+						}
+					}
+					if !allowed(p) {
+						bad = append(bad, "reads "+p+" at "+w.posOf(x.Pos()))
+					}
+				case *ssa.Field:
+					if p, ok := path(x); ok && !allowed(p) {
+						// only leaf uses matter; an intermediate Field feeding another Field is checked there
+						leaf := true
+						for _, r := range *x.Referrers() {
+							if _, ok := r.(*ssa.Field); ok {
+								leaf = false
+							}
+						}
+						if leaf {
+							bad = append(bad, "reads "+p+" at "+w.posOf(x.Pos()))
+						}
+					}
+				case *ssa.Call:
+					for _, a := range x.Call.Args {
+						if _, isAddr := a.(*ssa.FieldAddr); isAddr {
+							if p, ok := path(a); ok {
+								bad = append(bad, "passes the address of "+p+" to a call at "+w.posOf(x.Pos()))
+							}
+						}
+						if al, isAl := a.(*ssa.Alloc); isAl {
+							if n, ok := spill[al]; ok {
+								bad = append(bad, "passes the address of parameter "+n+" to a call at "+w.posOf(x.Pos()))
+							}
+						}
+					}
+				}
+			}
+		}
+		sort.Strings(bad)
+		out = append(out, DFResult{Name: nm + "#reads", OK: len(bad) == 0, Detail: "reads only " + strings.Join(ct.Reads, ", ") + map[bool]string{true: "", false: "; but " + strings.Join(bad, "; ")}[len(bad) == 0], At: ct.Loc})
+	}
+	return out
 }
